@@ -191,6 +191,20 @@ func c15Case(c *fw.Case, typ string, allBits bool) {
 			break
 		}
 	}
+	// the algorithm label is the caller's text: the signer signs with its key (the curve decides the digest), whatever the label reads
+	if typ != gen.Ed25519 {
+		label := fw.Pick(r, []string{"ES521", strings.ToLower(k.Alg()), "ECDSA", "es", k.Alg() + "K", "ES256", "ES384", "ES512"})
+		ls := ecsigner.New(k.EC, label, kid)
+		p3 := append([]byte("label-"), r.Bytes(r.Range(1, 40))...)
+		c3, err := signutil.SignPayload(p3, ls)
+		c.Count("signer-with-other-algorithm-label", 1)
+		c.Evals(1)
+		if err != nil {
+			c.Failf("sign-error", map[string]interface{}{"key_type": typ, "label": label, "err": err.Error()}, "signing with algorithm label %q failed: %v", label, err)
+		} else if pr, err := jwsutil.VerifyJWS(c3, jwk); err != nil || !bytes.Equal(pr.Payload, p3) {
+			c.Failf("valid-jws-refused", map[string]interface{}{"jws": c3, "jwk": k.JWK(), "label": label, "err": fmt.Sprint(err)}, "a JWS made by the library's %s signer under the algorithm label %q does not verify under the matching JWK: %v", typ, label, err)
+		}
+	}
 	// other keys
 	if !mirrorFirst {
 		tryMirror("after")
